@@ -171,6 +171,13 @@ def _build(cube, kw):
         a0.entry_points = list(nodes)         # entry points the attacker has not (or no longer) reached
     if kw.get('rb', True):
         a1.compromise(nodes[n - 1])
+    if kw.get('rm0', False):
+        from maltoolbox.attackgraph import AttackGraphNode
+        first = AttackGraphNode(type='or', name='early')
+        g.add_node(first)
+        link(first, nodes[0])
+        link(nodes[n - 1], first)
+        nodes.append(first)
     if kw.get('rm', False):
         from maltoolbox.attackgraph import AttackGraphNode
         extra = AttackGraphNode(type='or', name='gone')
@@ -180,6 +187,8 @@ def _build(cube, kw):
 
 
 def _copy_and_compare(g):
+    if getattr(g, '_verif_drop_first', False):
+        g.remove_node(g.nodes[0])          # ids are no longer equal to list positions
     c = copy.deepcopy(g)
     d_g, d_c = g._to_dict(), c._to_dict()
     with notrace():
@@ -200,7 +209,68 @@ def _copy_and_compare(g):
 
 def body_struct(cube, **kw):
     g = _build(cube, kw)
+    if kw.get('rm0', False):
+        g._verif_drop_first = True
     return _copy_and_compare(g)[3]
+
+
+def body_gen(cube, **kw):
+    """Deep copy of a GENERATED graph (nodes bound to model assets): the copy is used on its own afterwards."""
+    from maltoolbox.attackgraph import AttackGraph
+    from maltoolbox.model import AttackerAttachment
+    from maltoolbox.attackgraph.analyzers.apriori import calculate_viability_and_necessity
+    from xh import langs, mb
+    from xh.h_c09 import L_MINI
+    from xh.rt import reclimit
+    linkb, attach_before, ana, op = bool(kw['l']), bool(kw['ab']), bool(kw['an']), idx(kw['op'], 4)
+    with notrace(), reclimit():
+        lg, lcf = langs.build_lang(L_MINI())
+        m, A = mb.build_model(lcf, ['N', 'N'], names=['x', 'y'])
+        if linkb:
+            mb.add_link(m, lcf, 'PQ', 'p', [A[0]], 'q', [A[1]])
+        t = AttackerAttachment(name='att')
+        m.add_attacker(t)
+        t.add_entry_point(A[0], 'a'); t.add_entry_point(A[1], 'c')
+        g = AttackGraph(lg, m)
+        if attach_before:
+            g.attach_attackers()
+        if ana:
+            calculate_viability_and_necessity(g)
+        c, d_g, d_c, r = _copy_and_compare(g)
+        if r:
+            return r
+        if c.model is not m or c.lang_graph is not lg:
+            return 'the copy does not share model and language with the original'
+        # the copy is used on its own
+        if op == 0:
+            c.attach_attackers()
+        elif op == 1:
+            c.regenerate_graph(); c.attach_attackers()
+        elif op == 2:
+            calculate_viability_and_necessity(c)
+            from maltoolbox.attackgraph.analyzers.apriori import prune_unviable_and_unnecessary_nodes
+            prune_unviable_and_unnecessary_nodes(c)
+        else:
+            if c.attackers:
+                c.remove_attacker(c.attackers[0])
+            c.remove_node(c.nodes[0])
+        if g._to_dict() != d_g:
+            return 'using the copy (%s) changed the original graph' % ['attach_attackers', 'regenerate + attach', 'analyse + prune', 'remove attacker and node'][op]
+        for a in c.attackers:
+            for n in a.reached_attack_steps + a.entry_points:
+                if not has_identity(c.nodes, n):
+                    return 'an attacker of the copy references a node outside the copy after %s' % ['attach_attackers', 'regenerate + attach', 'analyse + prune', 'remove'][op]
+        for n in g.nodes:
+            for a in n.compromised_by:
+                if not has_identity(g.attackers, a):
+                    return 'a node of the original is compromised by an attacker of the copy'
+        r = wellformed(c)
+        if r:
+            return 'copy after use: ' + r
+        r = wellformed(g)
+        if r:
+            return 'original after the copy was used: ' + r
+    return ''
 
 
 def body_mut(cube, **kw):
@@ -236,9 +306,9 @@ def queries(tier):
     if tier == 'quick':
         n = 2
         ebits = ['e%d%d' % (i, j) for i in range(n) for j in range(n)]
-        ps = [I('tg0', 0, 2), I('ex0', 0, 2), I('tt0', 0, 2), B('r0'), B('r1'), B('ep'), B('ep2'), B('rm'), B('swap')] + [B(e) for e in ebits]
+        ps = [I('tg0', 0, 2), I('ex0', 0, 2), I('tt0', 0, 2), B('r0'), B('r1'), B('ep'), B('ep2'), B('rm'), B('rm0'), B('swap')] + [B(e) for e in ebits]
         qs.append(Query(name='struct', body=body_struct, params=ps, cubes=[{'n': n}], split=['tg0', 'ex0'],
-                        pre=['%s <= 2' % ' + '.join(ebits), 'not rm or (r0 and not r1)', 'not swap or (r1 and not rm and %s == 0)' % ' + '.join(ebits), 'not ep2 or (not ep and not rm and not swap)'], timeout=400,
+                        pre=['%s <= 2' % ' + '.join(ebits), 'not rm or (r0 and not r1)', 'not swap or (r1 and not rm and %s == 0)' % ' + '.join(ebits), 'not ep2 or (not ep and not rm and not swap)', 'not rm0 or (not rm and not swap and not ep2)'], timeout=400,
                         witnesses=[({'n': n}, {p.name: (1 if p.typ == 'int' else True) for p in ps})],
                         bound='2 nodes; node 0 with every tag/extras/TTC pick (%d combos), node 1 rich; <= 2 edges incl. self-loops; '
                               'two attackers, every reached set of a0, entry points on/off' % 27))
@@ -250,12 +320,13 @@ def queries(tier):
     else:
         n = 3
         ebits = ['e%d%d' % (i, j) for i in range(n) for j in range(n)]
-        ps = [I('tg0', 0, 2), I('ex0', 0, 2), I('tt0', 0, 2), I('tt1', 0, 2), B('v0'), B('r0'), B('r1'), B('r2'), B('ep'), B('ep2'), B('rb'), B('rm'), B('swap')] + \
+        ps = [I('tg0', 0, 2), I('ex0', 0, 2), I('tt0', 0, 2), I('tt1', 0, 2), B('r0'), B('r1'), B('r2'), B('ep'), B('ep2'), B('rm'), B('rm0')] + \
              [B(e) for e in ebits]
-        qs.append(Query(name='struct', body=body_struct, params=ps, cubes=[{'n': n}], split=['tg0', 'ex0', 'tt0', 'tt1'],
-                        pre=['%s <= 2' % ' + '.join(ebits)], timeout=1700,
-                        witnesses=[({'n': n}, {p.name: (1 if p.typ == 'int' else True) for p in ps})],
-                        bound='3 nodes; node 0 every pick, node 1 every TTC pick, node 2 rich; <= 2 edges; every reached set of a0'))
+        qs.append(Query(name='struct', body=body_struct, params=ps, cubes=[{'n': n}], split=['tg0', 'ex0'],
+                        pre=['%s <= 1' % ' + '.join(ebits), 'not (ep and ep2)', 'not (rm and rm0)'], timeout=1700,
+                        witnesses=[({'n': n}, dict({p.name: (1 if p.typ == 'int' else True) for p in ps}, ep2=False, rm0=False))],
+                        bound='3 nodes; node 0 every pick, node 1 every TTC pick, node 2 rich; <= 1 edge; every reached set of a0; entry points = reached / all nodes / none; '
+                              'copy after the highest-id or the lowest-id node was removed'))
         ps = []
         for s in range(2):
             ps += [I('m%d' % s, 0, len(MUTS) - 1), I('mn%d' % s, 0, n - 1), B('side%d' % s)]
@@ -265,6 +336,10 @@ def queries(tier):
                                     {'m0': m, 'mn0': 0, 'side0': True, 'm1': (m + 3) % len(MUTS), 'mn1': 1, 'side1': False})
                                    for m in range(len(MUTS))],
                         bound='3 rich nodes, edges 0->1->2->0 and 2->2; every sequence of two mutations from %s on any node of either graph' % MUTS))
+    qs.append(Query(name='gen', body=body_gen, params=[B('l'), B('ab'), B('an'), I('op', 0, 3)], timeout=400,
+                    witnesses=[({}, {'l': True, 'ab': True, 'an': True, 'op': 0}), ({}, {'l': True, 'ab': False, 'an': False, 'op': 2})],
+                    bound='graph generated from a 2-asset L_MINI model with a model attacker (optionally attached / analysed), deep-copied; then the copy alone is '
+                          'attached / regenerated / pruned / reduced, and the original must be unchanged and both graphs self-contained'))
     return qs
 
 
